@@ -546,6 +546,12 @@ def run(ctx):
         total.count("raw_texts")
         for pr in check_raw(text):
             total.violation("raw text %s (%s row %d col %d): %s" % (kind, name, r, c, pr), {"raw": [kind, name, r, c]})
+    for key, text in cross_column_texts():
+        total.count("cross_column_texts")
+        problems, cls, _ = check_text(text)
+        total.outcome("cross_column", cls.split(":")[0])
+        if problems:
+            total.violation("cross-column file %r: %s" % (key, problems[0]), {"origin": "cross-column", "text": text})
     total.sample("tiny", {"origin": "tiny grid 2x2", "text": "name,x\nlevel,0\n"})
     sizes = {}
     for s in shards:
@@ -588,6 +594,52 @@ def raw_texts():
         out.append(("big-key", name, 0, 0, big + ",x\n" + render(grid)))
     out.append(("tiny-big", "-", 0, 0, "name," + big + "\n"))
     out.append(("tiny-cr", "-", 0, 0, "name,a\rb\n"))
+    return out
+
+
+def cross_column_texts():
+    """Two-column files built from the sample's 'minimal' column in which each column has its own
+    transform depths and quantisation-matrix text: a value shared between columns must be
+    interpreted per column."""
+    name, grid = seeds()[0]
+    keycol = 0
+    src = None
+    for r in data_rows(grid):
+        if grid[r][0].strip() == "name":
+            for c in range(1, len(grid[r])):
+                if grid[r][c].strip() == "minimal":
+                    src = c
+    if src is None:
+        return []
+    depths = [(1, 0), (2, 0), (0, 1), (0, 3), (1, 1)]
+    mats = ["default", "4 2 2 0", "1 2 3 4", "1 2 3 4 5 6 7", "0 0"]
+    opts = [(d, m) for d in depths for m in mats]
+    out = []
+    for a in opts:
+        for b in opts:
+            g = []
+            for row in grid:
+                if not row:
+                    g.append([])
+                    continue
+                cell = row[src] if src < len(row) else ""
+                g.append([row[0], cell, cell])
+            have_qm = False
+            for r in data_rows(g):
+                k = g[r][0].strip()
+                for ci, (d, m) in ((1, a), (2, b)):
+                    if k == "name":
+                        g[r][ci] = "col%d" % ci
+                    elif k == "dwt_depth":
+                        g[r][ci] = str(d[0])
+                    elif k == "dwt_depth_ho":
+                        g[r][ci] = str(d[1])
+                    elif k == "quantization_matrix":
+                        g[r][ci] = m
+                        have_qm = True
+            if not have_qm:
+                g.append(["quantization_matrix", a[1], b[1]])
+            out.append(((a, b), render(g)))
     return out
 
 
